@@ -24,25 +24,34 @@ TInit == /\ l = 1 /\ tid = -1
          /\ flags = 0 /\ hi = 0 /\ pcode = 0 /\ v0 = 1 /\ idx = 1 /\ buf = <<>> /\ emitted = <<>>
 TReset == IsEvent("Reset") /\ tid' = R.tid /\ Frozen
 
+\* Whether a present composite section with EMPTY content (zero-length block / bare terminator /
+\* nothing left) decodes to "no value" or to a value that encodes to nothing is the declarative
+\* template's choice, not the wire format's: it is left open here and bound to what the template was
+\* observed to return; the fast reader has to make the same choice.
+OpenEmpty == {"TextureEntry", "NameValue", "TextureAnim", "PSBlockNew"}
+HasV(pr, i) == IF pr.f[i].pres /\ pr.f[i].len = 0 /\ Fields[i].name \in OpenEmpty
+               THEN Fields[i].name \in ToSet(R.tmpl.has)
+               ELSE HasValue(pr, i)
 \* what field i must decode to, as wire bytes
 Expected(p, pr, i) ==
-  IF ~HasValue(pr, i) THEN <<>>
+  IF ~HasV(pr, i) THEN <<>>
   ELSE IF i = StateIdx THEN <<StateValue(p[pr.f[PCodeIdx].off + 1], p[pr.f[i].off + 1])>>
   ELSE Slice(p, pr.f[i].off, pr.f[i].len)
 FieldOK(side, p, pr, i) ==
-  /\ (Fields[i].name \in ToSet(side.has)) = HasValue(pr, i)
+  /\ (Fields[i].name \in ToSet(side.has)) = HasV(pr, i)
   /\ side.b[Fields[i].name] = Expected(p, pr, i)
 
 TDec ==
   /\ IsEvent("Dec") /\ UNCHANGED tid /\ Frozen
   /\ LET p == R.p
          pr == Parse(p)
-         wf == WellFormed(pr, p) /\ Canonical(pr)
-         \* member of the declarative template's domain: it decodes and re-encodes to these bytes
+         wf == WellFormed(pr, p)          \* framing: every field readable, nothing left over
+         \* member of the declarative template's domain: it decodes and re-encodes to these bytes.  Which
+         \* empty / repeated contents are in the domain is the template's business (observed), not hard-coded.
          indomain == R.tmpl.res = "ok" /\ R.rt.res = "ok" /\ R.rt.b = p
          dom == R.wf \/ indomain
      IN
-     /\ Env("generated well-formed payload is well-formed for the spec", R.wf => wf)
+     /\ Env("generated well-formed payload is well-formed and canonical for the spec", R.wf => (wf /\ Canonical(pr)))
      /\ Chk("template-domain=>spec-wellformed", indomain => wf)
      /\ Chk("template-decodes", R.wf => R.tmpl.res = "ok")
      /\ Chk("fast-decodes", dom => R.fast.res = "ok")
